@@ -351,7 +351,29 @@ func (g *recState) do(c gengo.Context, pkg, typ string, isAlias bool) error {
 		render(c, fmt.Sprintf("var _%s_%s_%d = 1\n", g.name, typ, n))
 	case 'x':
 		render(c, "func {\n")
+	case 'm':
+		// value literals of maps with non-string keys: the text must not depend on map iteration order
+		bk := pkg + "/" + g.name
+		if sc.bodies[bk] == nil {
+			sc.bodies[bk] = &strings.Builder{}
+		}
+		sc.bodies[bk].WriteString("// map body\n")
+		mi := map[int]string{}
+		for i := 0; i < 12; i++ {
+			mi[(i*37+5)%101-20] = fmt.Sprint(i)
+		}
+		c.Render(snippet.T("var _"+g.name+"_"+typ+"_mi = @v\n", snippet.ValueArg("v", mi)))
+		c.Render(snippet.T("var _"+g.name+"_"+typ+"_ma = @v\n", snippet.ValueArg("v", map[[2]int]bool{{1, 2}: true, {2, 1}: false, {0, 9}: true, {9, 0}: true, {3, 3}: false, {-1, 4}: true})))
+		c.Render(snippet.T("var _"+g.name+"_"+typ+"_mb = @v\n", snippet.ValueArg("v", map[bool]map[uint8]string{true: {1: "a", 200: "b", 7: "c", 9: "d"}, false: {3: "x", 2: "y", 1: "z"}})))
+		c.Render(snippet.T("var _"+g.name+"_"+typ+"_mf = @v\n", snippet.ValueArg("v", map[float64]int{0.5: 1, -2: 2, 10: 3, 3.25: 4, 100: 5, 1e-3: 6})))
 	case 'b':
+		if len(sc.custom[key]) > 0 { // recorded as a marker: the model does not look inside custom bodies
+			bk := pkg + "/" + g.name
+			if sc.bodies[bk] == nil {
+				sc.bodies[bk] = &strings.Builder{}
+			}
+			sc.bodies[bk].WriteString("// custom body\n")
+		}
 		for _, it := range sc.custom[key] {
 			switch it.K {
 			case "block":
@@ -837,6 +859,9 @@ func (s *PScn) modelLine(o *POut) string {
 	}
 	rEnc := []string{}
 	for k, v := range s.Reacts {
+		if len(v) > 1 && v[1] == 'b' && len(s.Custom[k]) == 0 {
+			v = v[:1] + "n" + v[2:] // an empty custom body renders nothing
+		}
 		rEnc = append(rEnc, k+":"+strings.TrimSuffix(v, "-"))
 	}
 	sort.Strings(rEnc)
